@@ -199,6 +199,31 @@ func c13(args []string) error {
 		lat := rng.Float64()*150 - 75
 		lon := rng.Float64()*360 - 180
 		radius := math.Pow(10, rng.Float64()*7.6-1.3) // 5 cm .. 2000 km
+		switch k % 10 {
+		case 7: // the disc straddles the antimeridian
+			off := radius / 111000 * rng.Float64() * 0.9 / math.Cos(lat*math.Pi/180)
+			if off > 170 {
+				off = 170
+			}
+			lon = 180 - off
+			if k%20 == 7 {
+				lon = -180 + off
+			}
+		case 8: // the disc covers a pole (or comes close to it)
+			off := radius / 111000 * rng.Float64() * 1.5
+			if off > 80 {
+				off = 80
+			}
+			lat = 90 - off
+			if k%20 == 8 {
+				lat = -90 + off
+			}
+		case 9: // centre exactly on the antimeridian / the equator / the prime meridian
+			lon = []float64{180, -180, 0, 90}[k/10%4]
+			if k%30 == 9 {
+				lat = 0
+			}
+		}
 		steps := []int{0, 2, 3, 8, 64, 64, 64, 100, 4096}[rng.Intn(9)]
 		if steps == 4096 && k%50 != 0 {
 			steps = 64
@@ -229,6 +254,23 @@ func c13(args []string) error {
 		}
 		plat, plon := geo.DestinationPoint(lat, lon, radius*float64(f)/10000, bearing)
 		p := geometry.Point{X: plon, Y: plat}
+		// where the probe really is: chord between the two unit vectors (independent of the library's own formulas; good to a
+		// nanometre also next to a pole, where placing a probe by bearing is ill-conditioned)
+		dTrue := chordDistance(lat, lon, plat, plon)
+		margin := math.Max(0.002, 1e-7*radius)
+		if math.Abs(dTrue-radius) < margin {
+			continue // too close to the threshold to be decided within the property's tolerance
+		}
+		if ft := int(math.Round(dTrue / radius * 10000)); ft != f {
+			f = ft // the probe is not where it was aimed at: judge it where it is
+			if f == 10000 {
+				if dTrue > radius {
+					f = 10001
+				} else {
+					f = 9999
+				}
+			}
+		}
 		call := calls[rng.Intn(len(calls))]
 		ev.Emit(obj{"op": "frac", "f": f, "got": call.fn(c, p), "call": call.name, "centre": []float64{lon, lat}, "radius": radius, "bearing": bearing, "via": via, "src": "rec"})
 		if k%3 == 0 {
@@ -246,6 +288,9 @@ func c13(args []string) error {
 			if ok {
 				e["samecentre"] = c2.Center() == c.Center()
 				e["sameradius"] = math.Abs(c2.Meters()-c.Meters()) <= 1e-9*c.Meters()
+				if k%9 == 0 { // the object's own output: the same radius, bit for bit (kilometre and string spellings are converted)
+					e["sameradius"] = math.Float64bits(c2.Meters()) == math.Float64bits(c.Meters())
+				}
 			}
 			ev.Emit(e)
 			poly, _ := c.Polygon().(*geojson.Polygon)
@@ -261,4 +306,14 @@ func c13(args []string) error {
 	}
 	printJSON(obj{"rows": len(rows), "rings": len(rings), "evaluations": evals, "mismatches": mism, "events": ev.N})
 	return nil
+}
+
+// chordDistance: great-circle distance in metres from the chord between the two positions' unit vectors
+func chordDistance(lat1, lon1, lat2, lon2 float64) float64 {
+	const earthRadius = 6371e3
+	r := math.Pi / 180
+	x1, y1, z1 := math.Cos(lat1*r)*math.Cos(lon1*r), math.Cos(lat1*r)*math.Sin(lon1*r), math.Sin(lat1*r)
+	x2, y2, z2 := math.Cos(lat2*r)*math.Cos(lon2*r), math.Cos(lat2*r)*math.Sin(lon2*r), math.Sin(lat2*r)
+	c := math.Sqrt((x1-x2)*(x1-x2) + (y1-y2)*(y1-y2) + (z1-z2)*(z1-z2))
+	return 2 * earthRadius * math.Asin(math.Min(1, c/2))
 }
